@@ -164,7 +164,7 @@ def acc_fn(obl):
     return names
 
 
-def _solve(eng, obl, timeout_ms, want_model=False):
+def _solve(eng, obl, timeout_ms, want_model=False, cfg=None):
     import z3
     acc, seen = set(), set()
     for h in obl.hyps:
@@ -180,6 +180,8 @@ def _solve(eng, obl, timeout_ms, want_model=False):
             fields.add(nm[3:])
     s = z3.Solver()
     s.set("timeout", timeout_ms)
+    for k, v in (cfg or {}).items():
+        s.set(k, v)
     s.add(*obl.hyps)
     if "prefix_elems" in acc_fn(obl):
         from .spec import pe_axioms
@@ -263,6 +265,10 @@ def eng_fields():
     return FIELDS
 
 
+RETRY_CONFIGS = [{"smt.random_seed": 11}, {"smt.mbqi": False}, {"smt.random_seed": 23, "smt.qi.eager_threshold": 50},
+                 {"smt.mbqi": False, "smt.random_seed": 5}]
+
+
 def verify_one(args):
     """Worker: all obligations of one function.  Returns plain dicts."""
     name, tier, mode = args
@@ -302,11 +308,21 @@ def verify_one(args):
         res = []
         stime = eng.solver_time
         failed = {}
+        retried = []
         for nm, obls in groups.items():
             status, tt, detail = "proved", 0.0, ""
             for o in obls:
                 r, dt, _, _ = _solve(eng, o, timeout)
                 tt += dt
+                if r != "unsat":
+                    # quantified queries are sensitive to incidental naming and load:
+                    # `unsat` from any configuration is a proof, so retry before giving up
+                    for cfg in RETRY_CONFIGS:
+                        r, dt, _, _ = _solve(eng, o, timeout, cfg=cfg)
+                        tt += dt
+                        if r == "unsat":
+                            retried.append(o.name)
+                            break
                 if r != "unsat":
                     status = "open"
                     detail = o.detail
